@@ -117,6 +117,15 @@ def run(ctx: Ctx):
         if shp:
             kp_, v_ = u(shp[0].targets[0].elts[1]), u(shp[0].targets[0].elts[2])
             okk = not padd(nz.poly(other), nz.poly(ast.parse(f"{kp_} * {v_} + {kp_}", mode="eval").body), -1)
+            if not okk:
+                # by value: locals (single-use or shared) that hold parts of the count are followed through their definitions
+                from sa.inteval import NotEvaluable, guarded_value
+                from sa.astutil import parent_map
+                try:
+                    pm_ = parent_map(adv.node)
+                    okk = all(guarded_value(other, {kp_: a_, v_: b_}, rda, pm_) == a_ * b_ + a_ for a_ in (1, 2, 5) for b_ in (1, 3, 7))
+                except NotEvaluable:
+                    okk = False
     col.ob("G12", "S1", f"{where_a}::K=min(width, old_width*(V+1))", okk,
            f"the number of kept candidates is `{u(kdef[0].value) if kdef else None}`; there are old_width * V extension "
            f"candidates plus old_width non-extension candidates", rel, kdef[0].lineno if kdef else adv.line)
@@ -299,7 +308,7 @@ def _s3(ctx, adv, fwd, sl, rel):
                            f"`{u(c_)[:120]}` pads the prefix relation with something other than False", rel, n.lineno, sample=u(c_)[:120])
     col.floor("advance_mass_pad_sites", n_mass, 2)
     _dead_sources_excluded_from_merges(ctx, adv, rel)
-    _search_table(ctx, adv, rel)
+    table_ok = _search_table(ctx, adv, rel)
     # case splits over one per-path predicate: in `p | (~p' & q)` (k is unextended, or it is extended and its new label matches)
     # p and p' are the same vector and must be laid along the same axis of the (k, k') relation - viewed along different axes
     # the two arms talk about different paths
@@ -339,7 +348,9 @@ def _s3(ctx, adv, fwd, sl, rel):
             f"{badsplit[0][2][1]} in the other: the 'is an extension' test is applied to the other path of the pair, so an extension that is "
             f"a prefix of a surviving prefix is not recorded as one and the same label sequence later appears twice") if badsplit else "",
            rel, badsplit[0][0].lineno if badsplit else adv.line, sample=nsplit)
-    col.floor("advance_relation_pad_sites", n_rel, 2)
+    # (the search table runs the 'beam wider than the candidates' padding by value - however the relation is padded; the cat sites are
+    # required only where the table could not be evaluated)
+    col.floor("advance_relation_pad_sites", n_rel, 0 if table_ok else 2)
     # forward: the two padding sites (inside the loop and after it)
     rdf = sl.rd
     nf = 0
